@@ -110,7 +110,8 @@ def judge_create_solution(J, subs, mk_container):
     Tval = float(F(J['T']))
     qunits = ['U' if s.is_enzyme() else (J['qunit'] if J['qunit'] != 'U' else 'g') for s in solutes]
     if 'c' in J['given']:
-        v = ['%r %s' % (c, J['cunit']) for c in cvals]
+        cunits = J.get('cunits') or [J['cunit']] * n
+        v = ['%r %s' % (c, u) for c, u in zip(cvals, cunits)]
         kwargs['concentration'] = v[0] if n == 1 else v
     if 'q' in J['given']:
         v = ['%r %s' % (q, u) for q, u in zip(qvals, qunits)]
@@ -136,8 +137,8 @@ def judge_create_solution(J, subs, mk_container):
     check_container(R, 'solution', fails)
     nb, db = J['cunit'].split('/')
     if 'c' in J['given']:
-        for s, c in zip(solutes, cvals):
-            den = concentration_denotation('%r %s' % (c, J['cunit']))
+        for s, c, cu in zip(solutes, cvals, J.get('cunits') or [J['cunit']] * n):
+            den = concentration_denotation('%r %s' % (c, cu))
             got = conc(R, s, den[1], den[2])
             if not close(got, float(den[0]), 1e-6):
                 fails.append(f'concentration of {s.name} is {got}, requested {float(den[0])} {den[1]}/{den[2]}')
